@@ -679,6 +679,52 @@ def synth_choice(ctx, res, drv):
     res.branch(["choice"] * len(recs))
 
 
+def synth_sort_by(ctx, res, drv):
+    """SolverResult.sort_by on a score column (rows must stay together, order stable)"""
+    from graphiq.solvers.solver_result import SolverResult
+
+    rng = ctx.rng
+    lines, recs = [], []
+    for _ in range(60 if ctx.quick else 600):
+        n = rng.randrange(0, 8)
+        keys = [rng.choice(SMALL_GRID + [float("inf"), 0.0]) for _ in range(n)]
+        circuits = [FakeCircuit(3 + i) for i in range(n)]
+        tags = [f"t{i}" for i in range(n)]
+        sr = SolverResult(list(circuits), properties=["score", "tag"])
+        sr["score"] = list(keys)
+        sr["tag"] = list(tags)
+        err = None
+        try:
+            sr.sort_by("score")
+        except Exception as e:  # noqa: BLE001
+            err = err_class(e)
+        res.evaluations += 1
+        inp = {"kind": "sort_by", "keys": [repr(k) for k in keys]}
+        if err is not None:
+            res.violation(f"sort_by:raises:{err}", "SolverResult.sort_by raised on a well-formed table", input=inp)
+            continue
+        order = [circuits.index(c) for c in sr["circuit"]]
+        # direct oracle: rows intact, keys non-decreasing, stable
+        if [sr["tag"][i] for i in range(n)] != [tags[j] for j in order] or [sr["score"][i] for i in range(n)] != [keys[j] for j in order] \
+                or sorted(order) != list(range(n)):
+            res.violation("sort_by:rows-torn", "sort_by separated a circuit from its properties", input=inp, impl=str(order))
+        ks = [keys[j] for j in order]
+        if any(a > b for a, b in zip(ks, ks[1:])):
+            res.violation("sort_by:unsorted", "sort_by did not order the rows by the column", input=inp, impl=str(order))
+        if any(keys[a] == keys[b] and a > b for a, b in zip(order, order[1:])):
+            res.violation("sort_by:unstable", "sort_by swapped rows with equal keys", input=inp, impl=str(order))
+        lines.append("evo.sort_by keys=" + (",".join(eu.ratio(k) for k in keys) or "-"))
+        recs.append((inp, order))
+    for rep, (inp, order) in zip(drv.batch(lines), recs):
+        m = [] if rep.get("order", "-") == "-" else [int(x) for x in rep["order"].split(",")]
+        if rep["_status"] != "ok" or m != order:
+            res.exact_break("SolverResult.sort_by", input=inp, impl=str(order), model=rep["_raw"][:200])
+        if len(set(inp["keys"])) > 1:
+            res.nontrivial("sort_by", tuple(inp["keys"]))
+        res.traces_validated += 1
+    res.branch(["sort_by"] * len(recs))
+
+
 # ---------------------------------------------------------------------------------------------------------------- 2 whole runs
 def gen_jobs(ctx, n_jobs, long_small=0):
     rng = ctx.rng
@@ -1129,6 +1175,7 @@ def run(ctx):
         synth_tournament(ctx, res, drv)
         synth_adapt(ctx, res, drv)
         synth_choice(ctx, res, drv)
+        synth_sort_by(ctx, res, drv)
         jobs = gen_jobs(ctx, 44 if ctx.quick else 420, long_small=2 if ctx.quick else 40)
         run_jobs(ctx, res, drv, pool, jobs)
         if res.extra.get("infra_failures"):
